@@ -27,8 +27,8 @@ ASSUMPTIONS = [
     "while restricted and is then left again two cycles later (as the property text allows)",
     "R ties: rs_a = constants (1,2,1,2,3,3), all 7 input bits; rs_c = (1,2,1,2,7,3): the 2-bit timers can never equal "
     "c_2p5ms = 7, so the handshake never times out and HS, HS-suspend, resume are reachable with a 4x4 timer space (rule_timeout "
-    "is not claimed there); thorough adds rs_b = (1,2,2,2,20,21) (HS and the time-out both reachable) under the input "
-    "restriction low_speed_only = bus_busy = disconnect = 0, vbus_connected = 1",
+    "is not claimed there); thorough adds rs_b = (1,2,2,2,20,21) (HS and the time-out both reachable) over the 16 input "
+    "words with low_speed_only = bus_busy = disconnect = 0",
 ]
 TIE_IMPORTS = "From LunaModel Require Import ResetSeq ResetSeq_proofs.\n"
 
@@ -66,29 +66,36 @@ def ports(d):
     return ins, outs
 
 
-def mk(name, consts, kind, env_mask=0, env_val=0, all_rules=True):
+def mk(name, consts, kind, alphabet=None, all_rules=True):
     def build():
         d = make_dut(consts)
         ins, outs = ports(d)
         return d, ins, outs
     t = Target(name, build)
-    t.consts = consts; t.kind = kind; t.env_mask = env_mask; t.env_val = env_val; t.all_rules = all_rules
+    t.consts = consts; t.kind = kind; t.alphabet = alphabet; t.all_rules = all_rules
     return t
 
 
-DEV = os.environ.get("C19_DEV", "")      # development only: "noR" skips the R obligations (to exercise the oracles alone)
+# input words with low_speed_only = bus_busy = disconnect = 0: full_speed_only (2), vbus_connected (8), line_state (16, 32) free
+ALPHA_B = [fs | vb | ln for ln in (0, 16, 32, 48) for vb in (0, 8) for fs in (0, 2)]
+
+# development only: "noR" skips the R obligations (to exercise the oracles alone), "only:<target>" keeps one target,
+# "noreal" skips the 60 MHz run
+DEV = os.environ.get("C19_DEV", "")
 
 
 def targets(tier):
     ts = [mk("rs_a", (1, 2, 1, 2, 3, 3), "R"),
           mk("rs_c", (1, 2, 1, 2, 7, 3), "R", all_rules=False),
-          mk("rs_m1", (2, 3, 2, 3, 30, 40), "mid"),
-          mk("rs_big", (15, 30, 120, 200, 400, 500), "big")]
+          mk("rs_m1", (2, 3, 2, 3, 30, 40), "mid")]
     if tier != "quick":
-        ts += [mk("rs_b", (1, 2, 2, 2, 20, 21), "R", env_mask=0b1001101, env_val=0b0001000),
+        ts += [mk("rs_b", (1, 2, 2, 2, 20, 21), "R", alphabet=ALPHA_B),
+               mk("rs_big", (15, 30, 120, 200, 400, 500), "big"),
                mk("rs_m2", (3, 6, 5, 8, 60, 63), "mid"),
                mk("rs_m3", (4, 8, 7, 9, 100, 128), "mid"),
                mk("rs_big2", (150, 300, 1200, 1500, 2500, 3000), "big")]
+    if "only:" in DEV:                    # development only: a single target
+        ts = [t for t in ts if t.name == DEV.split("only:")[1].split(",")[0]]
     return ts
 
 
@@ -168,7 +175,7 @@ def expand(segs):
     return out
 
 
-def random_trace(rng, n, mask=0):
+def random_trace(rng, n, alphabet=None):
     tr = []
     p_line = rng.choice([[0, 0, 0, 1, 1, 2, 3], [0, 1, 2], [0, 0, 0, 0, 1, 2]])
     hold = None
@@ -178,9 +185,8 @@ def random_trace(rng, n, mask=0):
         c = dict(low_speed_only=int(rng.random() < 0.04), full_speed_only=int(rng.random() < 0.06),
                  bus_busy=int(rng.random() < 0.1), vbus_connected=int(rng.random() < 0.95),
                  line_state=hold, disconnect=int(rng.random() < 0.03))
-        for name, sh in IN_SHIFT.items():
-            if name != "line_state" and (mask >> sh) & 1:
-                c[name] = 1 if name == "vbus_connected" else 0
+        if alphabet is not None:
+            c.update(low_speed_only=0, bus_busy=0, disconnect=0)
         tr.append(c)
     return tr
 
@@ -191,11 +197,11 @@ def traces(target, rng, tier):
     out = []
     if target.kind == "R":
         for _ in range(12 * n):
-            out.append(random_trace(rng, rng.randint(1, 120), target.env_mask))
+            out.append(random_trace(rng, rng.randint(1, 120), target.alphabet))
         for _ in range(10 * n):
-            tr = expand(scenario(rng, k, allow_ls=not (target.env_mask & 1)))[:300]
-            if target.env_mask:
-                tr = [dict(c, bus_busy=0, disconnect=0, low_speed_only=0, vbus_connected=1) for c in tr]
+            tr = expand(scenario(rng, k, allow_ls=target.alphabet is None))[:300]
+            if target.alphabet is not None:
+                tr = [dict(c, bus_busy=0, disconnect=0, low_speed_only=0) for c in tr]
             out.append(tr)
     elif target.kind == "mid":
         for _ in range(14 * n):
@@ -209,21 +215,64 @@ def traces(target, rng, tier):
 
 
 # ---------------------------------------------------------------------------------------------
+def rlock_alpha(name, target, *, alphabet, St, mstep, enc, dec, wf, dec_enc, wf_step, m0, wf_m0, fuel=5000, describe=""):
+    """tie.rlock over an explicit input alphabet (Machine.R_lockstep is stated for any alphabet list): the search visits
+    only those words instead of all 2^k words with an environment filter.  alphabet = None: all 7-bit words.
+    The closure check is evaluated once, by the kernel at Qed (vm_cast_no_check), instead of twice."""
+    G = target.modname
+    alpha = "range_bits 7" if alphabet is None else "[" + "; ".join(str(int(a)) for a in alphabet) + "]"
+    env = "(fun _ _ => true)"
+    defs = f"""
+Module {name}.
+  Definition step := {G}.step.
+  Definition mon := rl_mon ({St}) ({mstep}) ({enc}) ({dec}) ({env}).
+  Definition alpha : list N := {alpha}.
+  Definition m0 := ({enc}) ({m0}).
+  Definition bfs := Eval vm_compute in explore step mon alpha {fuel} {G}.init m0.
+  Definition ob_cex := Eval vm_compute in cex bfs.
+  Definition ob_left := Eval vm_compute in length (front bfs).
+  Definition ob_states := Eval vm_compute in length (allst bfs).
+End {name}.
+"""
+    thms = f"""
+Module {name}_T.
+  Import {name}.
+  Definition L := Eval vm_compute in allst bfs.
+  Lemma L_closed : closed step mon alpha L = true.
+  Proof. vm_cast_no_check (eq_refl true). Qed.
+  Lemma init_in : pmem {G}.init m0 (of_list L) = true.
+  Proof. vm_cast_no_check (eq_refl true). Qed.
+  Theorem tie : forall tr, Forall (fun i => In i alpha) tr ->
+    run {G}.step {G}.init tr = run ({mstep}) ({m0}) tr.
+  Proof.
+    intros tr H.
+    apply (R_lockstep step ({St}) ({mstep}) ({enc}) ({dec}) ({wf}) ({env}) ({dec_enc}) ({wf_step}) alpha L).
+    - exact L_closed.
+    - exact init_in.
+    - {wf_m0}
+    - exact H.
+    - apply env_ok_true.
+  Qed.
+End {name}_T.
+"""
+    return tie.Obligation(name, "R-lockstep", target, defs, thms, [f"{name}_T.tie"], describe,
+                          mon_expr=f"{name}.mon", m0_expr=f"{name}.m0")
+
+
 def obligations(targets, tier):
     obs = []
     for t in targets:
         Kc = coqK(t.consts)
         allr = "true" if t.all_rules else "false"
         if t.kind == "R" and "noR" not in DEV:
-            env = f"(fun _ i => N.land i {t.env_mask} =? {t.env_val})" if t.env_mask else "(fun _ _ => true)"
-            obs.append(tie.rlock(
-                f"ob_{t.name}", t, St="rs_state", mstep=f"rs_step {Kc}", enc=f"rs_enc {Kc}", dec=f"rs_dec {Kc}",
-                wf=f"rs_wf {Kc}", dec_enc=f"rs_dec_enc {Kc}", wf_step=f"rs_wf_step {Kc}", m0="rs_init",
-                wf_m0="apply rs_wf_init.", env=env, alpha_bits=7, fuel=100000,
-                describe=f"USBResetSequencer with cycle constants {t.consts} == property-satisfying FSM model, all input traces "
-                         "(a counterexample is an input trace on which the code departs from the model; the three departures known "
-                         "in /repo and the rules they break are in findings/C19-D*.json/.diff)"
-                         + (" with low_speed_only = bus_busy = disconnect = 0 and vbus_connected = 1" if t.env_mask else "")))
+            desc = (f"USBResetSequencer with cycle constants {t.consts} == property-satisfying FSM model, all input traces "
+                    "(a counterexample is an input trace on which the code departs from the model; the three departures known "
+                    "in /repo and the rules they break are in findings/C19-D*.json/.diff)")
+            kw = dict(St="rs_state", mstep=f"rs_step {Kc}", enc=f"rs_enc {Kc}", dec=f"rs_dec {Kc}",
+                      wf=f"rs_wf {Kc}", dec_enc=f"rs_dec_enc {Kc}", wf_step=f"rs_wf_step {Kc}", m0="rs_init",
+                      wf_m0="apply rs_wf_init.", fuel=100000)
+            obs.append(rlock_alpha(f"ob_{t.name}", t, alphabet=t.alphabet, describe=desc + (
+                " over the input words with low_speed_only = bus_busy = disconnect = 0" if t.alphabet else ""), **kw))
         if t.kind == "mid" or (t.kind == "R" and (tier != "quick" or "noR" in DEV)):
             obs.append(tie.cmon(f"spec_{t.name}", t, mon=f"(rs_mon {Kc} {allr})", m0="rs_mon0",
                                 describe=f"C19 rules ({'all' if t.all_rules else 'all but the time-out bound'}) evaluated over "
@@ -242,16 +291,19 @@ def tie_theorems(targets, tier):
         Kc = coqK(t.consts); G = t.modname
         rule = "rule_all" if t.all_rules else "rule_safe"
         thm = "rs_all" if t.all_rules else "rs_safe"
-        envhyp = f"Forall (fun i => (N.land i {t.env_mask} =? {t.env_val}) = true) tr ->\n  " if t.env_mask else ""
-        envprf = (f"(env_ok_of_Forall _ _ (fun i => N.land i {t.env_mask} =? {t.env_val}) _ _ HE)" if t.env_mask
-                  else "(env_ok_true _ _ _ _)")
+        if t.alphabet is None:
+            hyp = "Forall (fun i => i < 2 ^ N.of_nat 7) tr"
+            use = f"(ob_{t.name}_T.tie tr (Forall_range_bits 7 tr H))"
+        else:
+            hyp = f"Forall (fun i => In i ob_{t.name}.alpha) tr"
+            use = f"(ob_{t.name}_T.tie tr H)"
         s += f"""
-Theorem C19_{t.name} : forall tr, Forall (fun i => i < 2 ^ N.of_nat 7) tr ->
-  {envhyp}run {G}.step {G}.init tr = map (fun c => pack_out (c_out c)) (rs_trace {Kc} rs_init (map decode_in tr))
+Theorem C19_{t.name} : forall tr, {hyp} ->
+  run {G}.step {G}.init tr = map (fun c => pack_out (c_out c)) (rs_trace {Kc} rs_init (map decode_in tr))
   /\\ always ({rule} {Kc}) [] (rs_trace {Kc} rs_init (map decode_in tr)).
 Proof.
-  intros tr H{' HE' if t.env_mask else ''}. split.
-  - rewrite (ob_{t.name}_T.tie tr H {envprf}). apply rs_run_trace.
+  intros tr H. split.
+  - rewrite {use}. apply rs_run_trace.
   - apply {thm}; vm_compute; discriminate.
 Qed.
 """
@@ -317,7 +369,7 @@ def correspondence(tier, rng, bdir, cov):
         return dict(property=PID, obligation="table_60MHz", reason="the cycle constants the class computes differ from the "
                     "60 MHz specification table", class_constants=dict(zip(CONST_NAMES, real)),
                     specification=dict(zip(CONST_NAMES, SPEC_60MHZ)), confirmed_on_pysim=True, nofail=False)
-    ntr = 1 if tier == "quick" else 3
+    ntr = 0 if "noreal" in DEV else 1 if tier == "quick" else 3
     t0 = time.time()
     cycles = 0
     for idx in range(ntr):
@@ -351,7 +403,9 @@ LEVEL_TEXT = ("Machine-checked proof. For every choice of the six cycle constant
               "of a restriction; chirp mode ends at most c_2p5ms+2 cycles after the device chirp, into HS or FS/LS operation "
               "(C19_rules, C19_safety_rules, C19_rules_60MHz). At the tie configurations the netlist regenerated from /repo is "
               "proved output-equal to the model on all input traces (certified product reachability), which transfers the rules to "
-              "the netlist (C19_rs_a: all rules; C19_rs_c: all but the time-out bound).")
+              "the netlist (C19_rs_a: all rules; C19_rs_c: all but the time-out bound; thorough tier also C19_rs_b: all rules, over "
+              "the input words with low_speed_only = bus_busy = disconnect = 0). The boolean oracle run over simulator traces is "
+              "proved sound for the rules (C19_oracle_sound).")
 LEVEL_NOTE = ("The model is the property-satisfying behaviour. The code in /repo as found violates three of the rules (confirmed on "
               "Amaranth's simulator): D1 the HS handshake is started from DETECT_HS_SUSPEND while full_speed_only/low_speed_only is "
               "set; D2 the 2.5 ms chirp time-out is lost when the awaited K/J arrives in the time-out cycle, so a late host chirp "
